@@ -143,3 +143,119 @@ Example C15_ex_time_interval :
   timed_emits 5 (simulate (x_time_interval 5) 5 (ext_of (tevents [(5, 1); (20, 0)] (TTDone 20))))
   = [(5, Next (1, 0)); (20, Next (0, 15)); (20, Done)].
 Proof. vm_compute. reflexivity. Qed.
+
+(* ---- added after the theorem-quality audit ------------------------------------------------ *)
+From RxVerif Require Import Ops.SimPortSteps Ops.TimedDelayNeg Ops.DelayMapperRun.
+
+(* delay_with_mapper, WHOLE RUN, over all interleavings of the notifications of the source
+   (port 0), of the optional subscription delay (port 1 when has_sub) and of the delay
+   observables the mapper makes (port base + j for the j-th accepted element, base = 2 with a
+   subscription delay, else 1): the timed emissions of the machine equal the walk [dwm_spec]
+   (Ops/DelayMapperRun.v).  The walk: the source is heard once the subscription delay notified
+   (on_next or on_completed); an accepted element waits in the pending set under the port of its
+   delay observable; the FIRST notification of that port delivers it if it is an on_next or an
+   on_completed (later notifications of the port find nothing); an error of any heard port and a
+   raising mapper end the output with that error; completion is emitted when the source is done
+   and the pending set is empty (at the source's completion, or at the delivery that empties it).
+   Ports that are not subscribed (not yet made, already fired, the source after its terminal) are
+   not heard. *)
+Theorem C15_delay_with_mapper_walk : forall A has_sub (mapper : A -> nat -> res unit) t0 (ins : list (Z * nat * ev A)),
+  timed_emits t0 (simulate (x_delay_with_mapper has_sub mapper) t0 (ext2_of ins))
+  = dwm_spec has_sub mapper has_sub (negb has_sub) false 0 [] ins.
+Proof. exact @delay_with_mapper_walk. Qed.
+Print Assumptions C15_delay_with_mapper_walk.
+
+(* property-level reading (no subscription delay), "only then": an element x emitted at t was
+   the source's notification number j = count0 pre, and t is the instant of the FIRST
+   notification of port j+1 after x arrived, an on_next or an on_completed *)
+Theorem C15_delay_with_mapper_emitted_at_first_fire :
+  forall A (mapper : A -> nat -> res unit) t0 (ins : list (Z * nat * ev A)) t x,
+  In (t, Next x) (timed_emits t0 (simulate (x_delay_with_mapper false mapper) t0 (ext2_of ins))) ->
+  exists pre tx mid e rest,
+    ins = pre ++ (tx, 0%nat, Next x) :: mid ++ (t, S (count0 pre), e) :: rest
+    /\ fires e /\ port_silent (S (count0 pre)) mid.
+Proof. exact @delay_with_mapper_nosub_emitted_at_first_fire. Qed.
+Print Assumptions C15_delay_with_mapper_emitted_at_first_fire.
+
+(* ... and "then": if the mapper does not raise, nothing failed and the source had not completed
+   before x arrived, and nothing fails while x is pending, x IS emitted at the first notification
+   of its delay observable *)
+Theorem C15_delay_with_mapper_emits_when_fired :
+  forall A (mapper : A -> nat -> res unit) t0 (pre mid rest : list (Z * nat * ev A)) tx t x e,
+  mapper_total mapper -> no_err_tl pre -> (forall t', ~ In (t', 0%nat, Done) pre) ->
+  no_err_tl mid -> port_silent (S (count0 pre)) mid -> fires e ->
+  In (t, Next x) (timed_emits t0 (simulate (x_delay_with_mapper false mapper) t0
+        (ext2_of (pre ++ (tx, 0%nat, Next x) :: mid ++ (t, S (count0 pre), e) :: rest)))).
+Proof. exact @delay_with_mapper_nosub_emits_when_fired. Qed.
+Print Assumptions C15_delay_with_mapper_emits_when_fired.
+
+(* delay(d), d <= 0 (a negative delay; a datetime due time not in the future): the scheduler
+   clamps the negative delay of the drain action to zero, so in the closed world the WHOLE
+   simulation (inputs delivered, everything the runner observes) is that of delay(0) -- for
+   every event sequence of the source, no hypothesis on the instants *)
+Theorem C15_delay_nonpositive_is_zero : forall A d t0 (es : list (Z * ev A)),
+  d <= 0 -> simulate (x_delay d) t0 (ext_of es) = simulate (x_delay 0) t0 (ext_of es).
+Proof. exact @delay_nonpositive_is_zero. Qed.
+Print Assumptions C15_delay_nonpositive_is_zero.
+
+(* closed form: every element and the completion at the instant they arrive (bursts in order);
+   an error at once, the elements of its own instant dropped (they are still queued: at equal
+   instants the closed world delivers the source's notifications before the drain action) *)
+Theorem C15_delay_nonpositive_spec : forall A d t0 (tl : list (Z * A)) tm,
+  d <= 0 -> tsorted (tevents tl tm) -> Forall (fun e => t0 <= fst e) (tevents tl tm) ->
+  timed_emits t0 (simulate (x_delay d) t0 (ext_of (tevents tl tm))) = delay_out 0 tl tm.
+Proof. exact @delay_nonpositive_spec. Qed.
+Print Assumptions C15_delay_nonpositive_spec.
+
+Theorem C15_delay_absolute_past : forall A ts t0 (tl : list (Z * A)) tm,
+  tdelay ts t0 <= 0 -> tsorted (tevents tl tm) -> Forall (fun e => t0 <= fst e) (tevents tl tm) ->
+  timed_emits t0 (simulate (x_delay_at ts t0) t0 (ext_of (tevents tl tm))) = delay_out 0 tl tm.
+Proof. exact @delay_at_past_spec. Qed.
+Print Assumptions C15_delay_absolute_past.
+
+(* ---- non-vacuity of the added theorems ---- *)
+Definition C15_ex_mapper (x : Z) (i : nat) : res unit := if x =? 99 then Raise 5 else Ok tt.
+
+(* delay observables firing out of order, a second notification of a port, completion of the
+   source while elements are pending, delivery by on_completed *)
+Example C15_ex_delay_with_mapper :
+  timed_emits 0 (simulate (x_delay_with_mapper false C15_ex_mapper) 0
+    (ext2_of [(1, 0%nat, Next 10); (2, 0%nat, Next 20); (3, 2%nat, Next 0); (4, 2%nat, Next 0);
+              (5, 0%nat, Done); (6, 1%nat, Done); (7, 1%nat, Next 0)]))
+  = [(3, Next 20); (6, Next 10); (6, Done)].
+Proof. vm_compute. reflexivity. Qed.
+
+(* with a subscription delay: what the source sends before it fires is lost; a raising mapper *)
+Example C15_ex_delay_with_mapper_sub :
+  timed_emits 0 (simulate (x_delay_with_mapper true C15_ex_mapper) 0
+    (ext2_of [(1, 0%nat, Next 10); (2, 1%nat, Next 0); (3, 0%nat, Next 7); (4, 2%nat, Done);
+              (5, 0%nat, Next 99); (6, 0%nat, Done)]))
+  = [(4, Next 7); (5, Err 5)].
+Proof. vm_compute. reflexivity. Qed.
+
+(* the hypotheses of C15_delay_with_mapper_emits_when_fired hold for a mapper that never raises
+   on a timeline with a notification of a port that does not exist (port 5), an older element
+   delivered and the source completing while x = 20 (the source's notification number 2) is pending *)
+Example C15_ex_emits_when_fired_hyps :
+  let pre := [(1, 0%nat, Next 10); (2, 5%nat, Next 0); (3, 0%nat, Next 30)] in
+  let mid := [(5, 1%nat, Done); (6, 0%nat, Done)] in
+  @mapper_total Z (fun _ _ => Ok tt) /\ @no_err_tl Z pre /\ (forall t', ~ In (t', 0%nat, @Done Z) pre)
+  /\ @no_err_tl Z mid /\ port_silent (S (count0 pre)) mid /\ count0 pre = 2%nat
+  /\ timed_emits 0 (simulate (x_delay_with_mapper false (fun (_ : Z) _ => Ok tt)) 0
+       (ext2_of (pre ++ (4, 0%nat, Next 20) :: mid ++ [(7, 3%nat, Done)])))
+     = [(5, Next 10); (7, Next 20)].
+Proof.
+  cbn zeta. split; [intros y i; exists tt; reflexivity|].
+  split; [intros t k c H; cbn in H; intuition discriminate|].
+  split; [intros t H; cbn in H; intuition discriminate|].
+  split; [intros t k c H; cbn in H; intuition discriminate|].
+  split; [intros t e H; cbn in H; intuition discriminate|].
+  split; [reflexivity|vm_compute; reflexivity].
+Qed.
+
+Example C15_ex_delay_negative :
+  timed_emits 0 (simulate (x_delay (-7)) 0 (ext_of (tevents [(0, 1); (0, 2); (5, 0)] (TTDone 20))))
+  = [(0, Next 1); (0, Next 2); (5, Next 0); (20, Done)]
+  /\ timed_emits 0 (simulate (x_delay (-7)) 0 (ext_of (tevents [(0, 1); (5, 2); (5, 3)] (TTErr 5 9))))
+     = [(0, Next 1); (5, Err 9)].
+Proof. vm_compute. split; reflexivity. Qed.
